@@ -10,6 +10,9 @@
 //!   further options as key=value after the positional ones:
 //!     warm=1  the main thread makes ONE draw per (size, type) of the workload before any worker is
 //!             spawned (thread id 1000), so no worker is the first caller in the process
+//!     hang=H  bounded liveness: a monitor thread ends the run with `HANG ...` (exit 3) if, for H simulated
+//!             seconds (Miri's virtual clock), at least one random() call was in flight and no call started
+//!             or returned (default 0 = no monitor)
 //!     gens=G  the K workers are spawned in G successive generations, each joined before the next
 //!             starts (thread ids g*K + t): thread churn, TLS/address reuse across threads
 //!
@@ -25,10 +28,11 @@
 //!     (slot = which call site of the workload made the draw, rep = how many times that site had run before)
 //!   B <thread> <round> <call-id> <digest hex>           (applicability monitor)
 //!   J <thread>                                          (join error: thread died)
+//!   HANG <simulated seconds without progress> <events so far> <thread:type:n of the calls in flight>   (then exit 3)
 //!   T <virtual elapsed ns>
 //!   E                                                   (end marker)
 use std::io::Write;
-use std::sync::atomic::{AtomicU64, Ordering};
+use std::sync::atomic::{AtomicBool, AtomicU64, Ordering};
 use std::thread;
 
 use volute::{
@@ -46,6 +50,58 @@ static SEQ: AtomicU64 = AtomicU64::new(0);
 #[inline(always)]
 fn stamp() -> u64 {
     SEQ.fetch_add(1, Ordering::Relaxed)
+}
+
+/// Calls currently inside random(), for the liveness monitor: slot i holds 0 or
+/// 1 + (thread << 16 | type << 8 | n) of a call in flight (Relaxed RMWs only, like SEQ).
+static INFLIGHT: [AtomicU64; 32] = [const { AtomicU64::new(0) }; 32];
+static DONE: AtomicBool = AtomicBool::new(false);
+thread_local! { static MY_TID: std::cell::Cell<u64> = const { std::cell::Cell::new(0) }; }
+
+fn monitor(limit_s: u64) {
+    let mut last = SEQ.fetch_add(0, Ordering::Relaxed);
+    let mut since = std::time::Instant::now();
+    loop {
+        thread::park_timeout(std::time::Duration::from_secs(2));
+        if DONE.swap(false, Ordering::Relaxed) {
+            return;
+        }
+        // RMWs always read the latest value (a plain Relaxed load may be served a stale one)
+        let now = SEQ.fetch_add(0, Ordering::Relaxed);
+        let mut inflight = Vec::new();
+        for a in INFLIGHT.iter() {
+            let v = a.fetch_add(0, Ordering::Relaxed);
+            if v != 0 {
+                inflight.push(v - 1);
+            }
+        }
+        if now != last || inflight.is_empty() {
+            last = now;
+            since = std::time::Instant::now();
+            continue;
+        }
+        let el = since.elapsed().as_secs();
+        if el >= limit_s {
+            let mut buf = Vec::new();
+            buf.extend_from_slice(b"HANG ");
+            put_dec(&mut buf, el);
+            buf.push(b' ');
+            put_dec(&mut buf, now);
+            for v in inflight {
+                buf.push(b' ');
+                put_dec(&mut buf, v >> 16);
+                buf.push(b':');
+                buf.push(((v >> 8) & 0xff) as u8);
+                buf.push(b':');
+                put_dec(&mut buf, v & 0xff);
+            }
+            buf.push(b'\n');
+            let mut o = std::io::stdout();
+            let _ = o.write_all(&buf);
+            let _ = o.flush();
+            std::process::exit(3);
+        }
+    }
 }
 
 pub const W_BLOCKS: u8 = 1; // blocks().len() != max(1, 2^n / 64)
@@ -85,6 +141,7 @@ struct Cfg {
     ops: u64,
     warm: bool,
     gens: usize,
+    hang: u64,
 }
 
 fn splitmix(x: &mut u64) -> u64 {
@@ -147,9 +204,13 @@ fn dyn_random(n: usize) -> (Vec<u64>, usize, usize) {
 }
 
 fn one_draw(typ: u8, n: usize, slot: u32, rep: u32) -> Rec {
+    let tid = MY_TID.with(|t| t.get());
+    let fl = &INFLIGHT[(tid % 32) as usize];
+    fl.swap(1 + (tid << 16 | (typ as u64) << 8 | n as u64), Ordering::Relaxed);
     let s0 = stamp();
     let r = std::panic::catch_unwind(|| if typ == b'L' { dyn_random(n) } else { static_random(n) });
     let s1 = stamp();
+    fl.swap(0, Ordering::Relaxed);
     match r {
         Ok((blocks, nv, nb)) => {
             let warn = well_formed(n, &blocks, nv, nb);
@@ -180,6 +241,7 @@ fn neighbour_op(cfg: &Cfg, st: &mut u64, r: &Rec, out: &mut Vec<Ev>) {
 }
 
 fn worker(t: usize, cfg: &Cfg) -> Vec<Ev> {
+    MY_TID.with(|x| x.set(t as u64));
     // per-thread permutation of the size list: a pure function of argv
     let mut st = cfg.order ^ ((t as u64 + 1).wrapping_mul(0xD1B54A32D192ED03));
     let mut sizes = cfg.sizes.clone();
@@ -342,6 +404,7 @@ fn main() {
         cycle,
         ops: if a.len() > 10 && !a[10].contains('=') { p(&a[10]) } else { 0 },
         warm: a.iter().any(|x| x == "warm=1"),
+        hang: a.iter().find_map(|x| x.strip_prefix("hang=")).map(|x| p(x)).unwrap_or(0),
         gens: a.iter().find_map(|x| x.strip_prefix("gens=")).map(|x| p(x) as usize).unwrap_or(1).max(1),
         lut: a[4] == "lut" || a[4] == "both",
         stat: a[4] == "static" || a[4] == "both",
@@ -369,6 +432,12 @@ fn main() {
     }));
 
     let t0 = std::time::Instant::now();
+    let mon = if cfg.hang > 0 {
+        let h = cfg.hang;
+        Some(thread::spawn(move || monitor(h)))
+    } else {
+        None
+    };
     let mut buf: Vec<u8> = Vec::with_capacity(1 << 16);
     buf.extend_from_slice(b"C");
     for s in &a[1..] {
@@ -378,6 +447,7 @@ fn main() {
     buf.push(b'\n');
     if cfg.warm {
         // one draw per (type, size) on the main thread before any worker exists
+        MY_TID.with(|x| x.set(1000));
         let mut evs = Vec::new();
         let calls: Vec<(u8, usize)> = if !cfg.cycle.is_empty() {
             cfg.cycle.clone()
@@ -423,6 +493,11 @@ fn main() {
     }
     if let Some(evs) = main_log {
         encode(&mut buf, main_tid, &evs);
+    }
+    if let Some(m) = mon {
+        DONE.store(true, Ordering::Relaxed);
+        m.thread().unpark();
+        let _ = m.join();
     }
     let el = t0.elapsed().as_nanos() as u64;
     buf.extend_from_slice(b"T ");
